@@ -266,6 +266,9 @@ func (w *world) canAdd(x *tx, name string) bool {
 }
 
 func (w *world) add(x *tx, name string) {
+	if !x.live || x.trees[name] == nil {
+		return // the directed corpus goes on after an unexpected failure; the answers already differ from the model
+	}
 	w.nextKey++
 	k := w.nextKey
 	v := fmt.Sprintf("v%d", k)
@@ -279,6 +282,9 @@ func (w *world) add(x *tx, name string) {
 }
 
 func (w *world) commit(x *tx) {
+	if !x.live {
+		return
+	}
 	if !w.mayCommit(x) {
 		w.rollback(x)
 		return
@@ -394,6 +400,9 @@ func (w *world) mayCommit(x *tx) bool {
 func (w *world) removedSince(x *tx, name string) bool { return x.fail || w.removed[name+fmt.Sprint("@", x.id)] }
 
 func (w *world) rollback(x *tx) {
+	if !x.live {
+		return
+	}
 	err := x.t.T.Rollback(w.ctx)
 	out := "ok"
 	if err != nil {
